@@ -38,12 +38,12 @@ def run(ctx):
     L = 3 if q else 4
     for n in range(1, L + 1):
         for seq in itertools.product([(o, e) for o in ops for e in (0, 1)], repeat=n):
-            if q and n == 3 and rng.random() > 0.15:
+            if q and n == 3 and rng.random() > 0.07:
                 continue
             if not q and n == 4 and rng.random() > 0.1:
                 continue
             plans.append((2, list(seq)))
-    for i in range(40 if q else 600):
+    for i in range(25 if q else 600):
         k = rng.choice([1, 2, 3, 3])
         plans.append((k, [(rng.choice(ops), rng.randrange(k)) for _ in range(rng.choice([6, 10, 16]))]))
     by_cfg = {}
